@@ -71,9 +71,16 @@ func RandKbd(r *hx.Rand, g *hx.Gen, u string) Req {
 	n := r.PickInt(0, 1, 1, 2, 3)
 	for i := 0; i < n; i++ {
 		qs := r.PickInt(0, 1, 1, 2, 3)
+		if r.Chance(1, 25) {
+			qs = 99 // Challenge called with questions / echos of different length
+			g.Stat("req.kbd-echo-mismatch")
+		}
 		q.KbdRounds = append(q.KbdRounds, qs)
 	}
 	for _, qs := range q.KbdRounds {
+		if qs == 99 {
+			return q
+		}
 		if r.Chance(1, 7) {
 			q.Follow = append(q.Follow, r.PickStr("i"+itoa(qs+1), "ib", "gt", "gm", "o", "i"+itoa(qs+2), "ij"+itoa(qs), "ij"+itoa(qs)))
 			g.Stat("req.kbd-bad-response")
@@ -165,9 +172,16 @@ func Letters() []Req {
 	}
 }
 
-var allAlgos = []string{"ssh-ed25519", "ecdsa-sha2-nistp256", "rsa-sha2-256", "rsa-sha2-512", "ssh-rsa",
+// every entry of certKeyAlgoNames (both columns), defaultPubKeyAuthAlgos, plus an unknown name
+var allAlgos = []string{"ssh-ed25519", "ecdsa-sha2-nistp256", "ecdsa-sha2-nistp384", "ecdsa-sha2-nistp521", "rsa-sha2-256", "rsa-sha2-512", "ssh-rsa",
+	"ssh-dss", SKEd25519, "sk-ecdsa-sha2-nistp256@openssh.com",
 	"ssh-ed25519-cert-v01@openssh.com", "rsa-sha2-256-cert-v01@openssh.com", "rsa-sha2-512-cert-v01@openssh.com",
-	"ssh-rsa-cert-v01@openssh.com", "ecdsa-sha2-nistp256-cert-v01@openssh.com", "ssh-dss", "bogus-algo"}
+	"ssh-rsa-cert-v01@openssh.com", "ssh-dss-cert-v01@openssh.com", "ecdsa-sha2-nistp256-cert-v01@openssh.com",
+	"ecdsa-sha2-nistp384-cert-v01@openssh.com", "ecdsa-sha2-nistp521-cert-v01@openssh.com",
+	"sk-ecdsa-sha2-nistp256-cert-v01@openssh.com", SKEd25519Cert, "bogus-algo"}
+
+// AllAlgos exposes the table to the generators' coverage counters.
+func AllAlgos() []string { return allAlgos }
 
 // RandReq draws from the extended alphabet: the base letters plus algorithm/format mismatches,
 // malformed payloads, signatures over the wrong data, keys that do not parse, other services, read errors.
@@ -263,7 +277,7 @@ func RandReq(r *hx.Rand, g *hx.Gen) Req {
 
 // ---- scripted outcomes
 
-var randOutcomes = []string{"A0", "A1", "A1", "A2", "A3", "A4", "A4", "R", "R", "B0", "B1", "P111.0", "P010.0", "P100.0", "P001.0", "P000.0", "P110.1", "P011.0", "P0001.0", "P1111.0", "P0011.0"}
+var randOutcomes = []string{"A0", "A1", "A1", "A2", "A3", "A4", "A4", "R", "R", "B0", "B1", "P111.0", "P010.0", "P100.0", "P001.0", "P000.0", "P110.1", "P011.0", "P0001.0", "P1111.0", "P0011.0", "B2", "BP", "BW"}
 
 // SetOutcomes fills cb / vcb of every request according to a table:
 //
@@ -293,7 +307,7 @@ func SetOutcomes(r *hx.Rand, table int, reqs []Req) {
 		case 3:
 			q.Cb, q.Vcb = hx.Pick(r, randOutcomes), hx.Pick(r, randOutcomes)
 		case 4:
-			q.Cb, q.Vcb = r.PickStr("A1", "A2", "A3", "A0", "R", "A4"), r.PickStr("A1", "A2", "A3", "A0")
+			q.Cb, q.Vcb = r.PickStr("A1", "A2", "A3", "A0", "R", "A4", "A5"), r.PickStr("A1", "A2", "A3", "A0", "A5")
 		default:
 			q.Cb, q.Vcb = r.PickStr("A1", "A3", "A4"), hx.Pick(r, randOutcomes)
 		}
@@ -340,13 +354,14 @@ func MkPerm(addr string, entries []string, noTouch bool) PermRow {
 }
 
 // StdPerms: 1 = no options, 2 = source-address that does not match 10.1.2.3, 3 = one that does,
-// 4 = the no-touch-required extension.
+// 4 = the no-touch-required extension, 5 = a source-address list starting with an unparsable entry.
 func StdPerms(addr string) map[int]PermRow {
 	return map[int]PermRow{
 		1: MkPerm(addr, nil, false),
 		2: MkPerm(addr, []string{"192.168.7.7", "172.16.0.0/12"}, false),
 		3: MkPerm(addr, []string{"192.168.7.7", "10.0.0.0/8"}, false),
 		4: MkPerm(addr, nil, true),
+		5: MkPerm(addr, []string{"not-an-address", "10.0.0.0/8"}, false), // unparsable entry first: never matches
 	}
 }
 
@@ -369,6 +384,9 @@ func RandCfg(r *hx.Rand, friendly bool) Cfg {
 	c.Vpk = r.Chance(1, 3)
 	if r.Chance(1, 4) {
 		c.Ban = r.PickStr("e", "m")
+	}
+	if r.Chance(1, 6) {
+		c.Pre = r.PickStr("c", "b")
 	}
 	if !friendly || r.Chance(1, 8) {
 		c.Cbs = r.PickStr("111", "1111", "110", "010", "100", "011", "001", "000", "101", "0001", "0011", "1101", "0000")
